@@ -1,7 +1,8 @@
 # C10 — a retried POST (same client message id as the last applied message of the session) is not applied twice.
-#   proofs (Properties/C10.v) + correspondence of Api/Post.v with the real POST handler / FSM marker rule
-#   (single-node raft, real LevelDB, real FSM, real api.HTTP) + a model-independent monitor on every retry,
-#   on a second replica fed the same log and on a copy restored from Marshal/Unmarshal.
+#   proofs (Properties/C10.v) + correspondence of Api/Post.v with the real POST handler / FSM marker + skip rule
+#   (single-node raft, real LevelDB, real FSM, real api.HTTP) + a model-independent monitor on every retry and on
+#   every duplicate entry injected into the log (what a lagging handler proposes, D14), on the node, on a second
+#   replica fed the same log and on a copy restored from Marshal/Unmarshal.
 import json, os, time
 import vlib
 from props import c11 as api
@@ -71,11 +72,48 @@ def gen_case(rng, ci, quick):
         elif r < 0.97:
             ops += [P(k, body("PING d", fresh())), "D:%d:%s" % (k, hx(json.dumps({"Quitmessage": "leaving"})))] + reps
             dead.add(k)
-        else:              # same id again after a different message: NOT a retry of the last message
+        elif r < 0.98:     # same id again after a different message: NOT a retry of the last message
             c = fresh()
             ops += [P(k, body("PING a", c)), P(k, body("PING b", fresh())), P(k, body("PING a", c))]
+        else:
+            pass
+        # ---- the second copy IS in the log (a handler that lagged behind the log proposed it, D14): injected with Q
+        if k in dead or rng.random() > 0.45:
+            continue
+        def Q(k, c, line): return "Q:%d:%d:%s" % (k, c, hx(line))
+        c = fresh()
+        line = rng.choice(["PRIVMSG %s :dup %d" % (nick((k + 1) % ns), c), "PING dup%d" % c, "PRIVMSG #c%d :dup %d" % (ci, c)])
+        first = rng.choice([P(k, body(line, c)), "X:%d:%d:%s" % (k, c, hx(line))])
+        shape = rng.random()
+        if shape < 0.25:      # right after the first copy, several times, then the client's own retry
+            ops += [first] + [Q(k, c, line)] * rng.choice([1, 2]) + ["T:%d" % k]
+        elif shape < 0.40:    # across a restore
+            ops += [first, "S", Q(k, c, line), "S", Q(k, c, line)]
+        elif shape < 0.60:    # other sessions' traffic in between: still the last message of k -> skipped
+            j = rng.choice([x for x in range(ns) if x != k])
+            ops += [first, I(j, "PING between"), I(j, "JOIN #c%d" % ci), Q(k, c, line), Q(j, fresh(), "PING own-id"), Q(k, c, line)]
+        elif shape < 0.75:    # a different message of k in between: the old id is no longer the last one -> processed again
+            ops += [first, P(k, body("PING newer", fresh())), Q(k, c, line), Q(k, c, line)]
+        elif shape < 0.85:    # client message id 0 is "no id": two entries with id 0 are two messages
+            ops += [Q(k, 0, line), Q(k, 0, line)]
+        elif shape < 0.93:    # same id, different text: the decision depends on the id only
+            ops += [first, Q(k, c, "PRIVMSG #c%d :other text" % ci)]
+        else:                 # the first copy ended the session: the second copy finds no session
+            ops += [P(k, body("QUIT :bye", c)), Q(k, c, "QUIT :bye"), "T:%d" % k]
+            dead.add(k)
     ops.append("Z")
     return "post c%d " % ci + " ".join(ops)
+
+
+def q_batches(o):
+    """number of output messages stored for the injected entry"""
+    return sum(int(e.split(".")[7]) for e in o["ent"].split(";") if e.count(".") >= 7) if o.get("ent", "-") != "-" else 0
+
+
+def q_processed(o):
+    """did the implementation process the injected entry?  Processing always moves the session's activity stamp
+    (UpdateLastClientMessageID), which the driver's state digest covers; output is the other witness."""
+    return q_batches(o) > 0 or o.get("same") != "1"
 
 
 def model_case(obs):
@@ -99,6 +137,11 @@ def model_case(obs):
         elif k == "X" and "lpm" in o:
             mops.append("X:%s:%s" % (o["sid"], o["cmid"])); want.append("X:%s:%s" % (o["lpm"], "1" if o["alive"] == "true" else "0"))
             entries += int(o["grew"])
+        elif k == "Q" and "lpm" in o:
+            proc = q_processed(o)
+            mops.append("Q:%s:%s:%s:%s" % (o["sid"], o["cmid"], o["data"], o["deaths"] if proc else "-"))
+            want.append("Q:%s:%s:%s" % ("proc" if proc else "skip", o["lpm"], "1" if o["alive"] == "true" else "0"))
+            entries += int(o["grew"])
         elif k == "D" and "status" in o:
             deaths = o["deaths"] if o["grew"] != "0" else "-"
             mops.append("D:%s:%s:%s" % (o["sid"], o["jd"], deaths))
@@ -115,11 +158,13 @@ def model_case(obs):
 
 def monitor(ops, obs):
     """the property on the implementation's trace: a repeat of the last applied message of a session adds no log entry,
-    no output batch, and does not move the marker — also after restore, after a message of death, on every replica."""
+    no output batch, and does not move the marker — also after restore, after a message of death, on every replica;
+    and a second copy that IS in the log (injected: what a lagging handler proposes) adds no output batch, moves no
+    marker and leaves the state digest alone, while an entry that is not a copy of the last message is processed."""
     fails, pre, checked = [], {}, 0          # pre[slot] = obs of the last message op of the slot
     for tok, o in zip(ops, obs):
         k = o["op"]
-        if "panic" in o or ("err" in o and k not in ("X",)):
+        if "panic" in o or ("err" in o and k not in ("X", "Q")):
             fails.append(("driver-op-failed", "op %s failed: %s" % (tok, o)))
             continue
         slot = tok.split(":")[1] if ":" in tok else None
@@ -127,11 +172,36 @@ def monitor(ops, obs):
             pre[slot] = o
         elif k == "X":
             pre[slot] = dict(o, status="200", jp="x.%s" % o["cmid"]) if o.get("err") == "false" else None
+        elif k == "Q":
+            p = pre.get(slot)
+            c = o["cmid"]
+            was_alive = p is not None and p.get("alive") == "true"
+            is_copy = c != "0" and was_alive and p.get("lpm") == c
+            if o.get("err") != "false" or o["grew"] != "1":
+                fails.append(("driver-op-failed", "injected entry was not committed: %s" % o))
+            elif is_copy:
+                checked += 1
+                what = []
+                if q_batches(o):
+                    what.append("%d output message(s) were stored for it" % q_batches(o))
+                gone = o["alive"] != "true" and not q_batches(o) and o["same"] == "1"   # removed meanwhile by another session's entry
+                if (o["lpm"] != c or o["alive"] != "true") and not gone:
+                    what.append("marker/liveness moved (%s, alive=%s)" % (o["lpm"], o["alive"]))
+                if o["same"] != "1":
+                    what.append("the state digest changed")
+                if what:
+                    fails.append(("duplicate-entry-processed-twice", "a second log entry with client message id %s of session %s (the session's last "
+                                  "applied message) was processed again: %s" % (c, o["sid"], "; ".join(what))))
+            elif was_alive and o["alive"] == "true" and not q_processed(o):
+                fails.append(("fresh-message-skipped", "an entry with client message id %s of session %s whose marker was %s was not processed" % (c, o["sid"], p.get("lpm"))))
+            if o.get("err") == "false":
+                pre[slot] = dict(o, status="200", jp="x.%s" % c)
         elif k == "D":
             pass
         elif k == "T":
             p = pre.get(slot)
-            first_applied = p is not None and p.get("status") == "200" and p.get("jp") != "!" and o.get("jp") != "!"
+            first_applied = (p is not None and p.get("status") == "200" and p.get("jp") != "!" and o.get("jp") != "!"
+                             and p["jp"].split(".")[-1] == o["jp"].split(".")[-1])
             if not first_applied:
                 continue         # the first copy was rejected (400/404): nothing was applied, the property does not speak
             checked += 1
@@ -191,10 +261,13 @@ def run(ck, replay):
         "oracles taken from the implementation's trace: encoding/json decoding of each body, the set of sessions that disappear while an entry is processed",
         "modelled, not verified: net/http, encoding/json, hashicorp/raft (a proposal is applied on the handling node before the handler returns), "
         "protobuf snapshot encoding (checked per run by the restore comparison)"]
-    ck.assumptions += ["PRECONDITION of the property: the retry is handled by a node that has already applied the first copy (a retry overtaking the first copy on "
-                       "another node — DESIGN D14 — is outside C10 and is not reported)",
-                       "client message ids are non-zero and differ between consecutive distinct messages of a session (otherwise the first message is swallowed; not forbidden by C10)",
-                       "Marshal/Unmarshal keeps sessions and markers (hypothesis of C10_retries; compared on the implementation in every case: ops S and Z)",
+    ck.assumptions += ["no precondition on the handling node is left: a handler that is caught up proposes nothing (C10_handler/C10_retries), and a second copy "
+                       "proposed by a handler in any other state is skipped by every node that applies it (C10_second_copy_*/C10_processed_once; statemachine.go, 92a4e2e). "
+                       "The lagging handler itself is not reproduced here (single node, always caught up — props/c05.py does that with restarts); its effect, the "
+                       "duplicate log entry, is injected directly into raft (op Q)",
+                       "client message id 0 means 'no id': the first message with id 0 on a fresh session is swallowed by the handler and two log entries with id 0 are two "
+                       "messages (both not forbidden by C10)",
+                       "Marshal/Unmarshal keeps sessions and markers (hypothesis of C10_retries/C10_processed_once; compared on the implementation in every case: ops S and Z)",
                        "session ids are never re-used (raft indexes)"]
     ok = ck.proof_obligations()
     facts, _, slog = api.scan_routes()
@@ -239,9 +312,14 @@ def run(ck, replay):
             if o["op"] in ("P", "I", "T") and "status" in o:
                 key = "%s/%s/grew%s" % (o["op"], o["status"], o["grew"])
                 dist[key] = dist.get(key, 0) + 1
+            elif o["op"] == "Q" and "lpm" in o:
+                key = "Q/injected-entry/" + ("processed" if q_processed(o) else "skipped")
+                dist[key] = dist.get(key, 0) + 1
     mism = []
     if getattr(ck, "model_ok", False):
         mout = vlib.run_model("\n".join(mins) + "\n")
+        # a (shrunk) history without the final Z op has no end-of-case comparison on the implementation side
+        mout = [m if " E:" in w else m.rsplit(" E:", 1)[0] for m, w in zip(mout, wants)] + mout[len(wants):]
         mism = [i for i in range(len(mins)) if i >= len(mout) or mout[i] != wants[i]]
         if ck.tier == "thorough":
             idx = api.vm_sample(mins)
@@ -256,9 +334,11 @@ def run(ck, replay):
     ck.cov["traces_validated_against_impl"] = len(lines)
     ck.cov["retries_checked_by_monitor"] = retries
     ck.cov["rule"] = ("histories of 2-4 sessions on one node: POST + 1-3 byte-identical repeats, with other sessions' traffic, Marshal/Unmarshal restore, an injected "
-                      "message-of-death entry, QUIT / operator KILL / DELETE of the session between copy and repeat; bodies with newline, CR/NUL, >2048 bytes, trailing "
+                      "message-of-death entry, QUIT / operator KILL / DELETE of the session between copy and repeat; duplicate IRCFromClient entries injected into raft right after the "
+                      "first copy, across restores, behind other sessions' traffic, behind a newer message of the same session (must be processed), with id 0 twice (processed "
+                      "twice), with different text, after the session ended; bodies with newline, CR/NUL, >2048 bytes, trailing "
                       "garbage, truncated JSON, client message id 0 / 2^64-1 / negative / string; every case ends with a second replica of the log and a restored copy. "
-                      "non-trivial = history with at least one repeat whose first copy had been applied (precondition of C10), distinct by text")
+                      "non-trivial = history with at least one repeat or injected duplicate of an applied message that the monitor checked, distinct by text")
     ck.cov["input_distribution"] = dist
     ck.cov["samples"] = [{"case": lines[i][:400], "impl": wants[i][:300], "model": (mout[i] if i < len(mout) else "")[:300]} for i in range(min(3, len(lines)))]
     seen = set()
@@ -270,7 +350,7 @@ def run(ck, replay):
         if not replay:
             ops = [o for o in ops if o not in ("N",) and not o.startswith("F:")]
             ops = prefix.split(" ") + shrink("post s " + " ".join(ops), wiring, sig)
-        ck.violation(sig, {"what": text, "cases": ["post replay " + " ".join(ops)], "expected": "a repeat of the last applied message is acknowledged (200) without a log entry, output or marker change",
+        ck.violation(sig, {"what": text, "cases": ["post replay " + " ".join(ops)], "expected": "a repeat of the last applied message is acknowledged (200) without a log entry, output or marker change; a second copy in the log is skipped (no output, no marker move, same state digest)",
                            "how_to_replay": "bin/check C10 --replay <this file>"}, concrete=True)
     if mism and not monfail:
         i = mism[0]
